@@ -58,7 +58,7 @@ class Ctx:
 
     # ------------------------------------------------------------------ TLC
     def tlc(self, spec_dir, module, cfg, workers=None, simulate=None, depth=None, timeout=1800,
-            coverage=False, emit_tags=(), extra_files=(), props=None, deadlock=True, dfs=False,
+            coverage=False, emit_tags=(), extra_files=(), props=None, deadlock=True, dfs=False, emit_raw=False,
             expect_violation=False, heap=None, constants=None):
         """Run TLC on specs/<spec_dir>/<module>.tla with <cfg>. Returns a dict.
 
@@ -101,14 +101,36 @@ class Ctx:
                 cmd += ["-depth", str(depth)]
         cmd.append(module)
         t0 = time.time()
+        # TLC's output goes to a file and is read line by line: emitted records can be gigabytes
+        out_path = os.path.join(run_dir, "tlc.out")
         try:
-            p = subprocess.run(cmd, cwd=run_dir, stdout=subprocess.PIPE, stderr=subprocess.STDOUT,
-                               text=True, timeout=timeout)
+            with open(out_path, "w") as of:
+                p = subprocess.run(cmd, cwd=run_dir, stdout=of, stderr=subprocess.STDOUT, text=True, timeout=timeout)
         except subprocess.TimeoutExpired:
             raise Infra("TLC timed out after %ds on %s/%s" % (timeout, module, cfg))
-        out = p.stdout
         res = {"rc": p.returncode, "module": module, "cfg": cfg, "wall_s": round(time.time() - t0, 1),
-               "emit": {t: [] for t in emit_tags}, "out": out, "run_dir": run_dir}
+               "emit": {t: [] for t in emit_tags}, "run_dir": run_dir}
+        other = []
+        line_re = re.compile(r'^<<"([A-Z0-9_]+)", "(.*)">>$')
+        with open(out_path) as f:
+            for line in f:
+                line = line.rstrip("\n")
+                if emit_tags and line.startswith('<<"'):
+                    mm = line_re.match(line)
+                    if mm and mm.group(1) in res["emit"]:
+                        s = mm.group(2).replace('\\"', '"').replace("\\\\", "\\")
+                        if emit_raw:
+                            res["emit"][mm.group(1)].append(RawJSON(s))
+                            continue
+                        try:
+                            res["emit"][mm.group(1)].append(json.loads(s))
+                        except Exception as e:
+                            raise Infra("cannot parse emitted line: %r (%s)" % (line[:200], e))
+                        continue
+                other.append(line)
+        os.unlink(out_path)
+        out = "\n".join(other)
+        res["out"] = out
         m = re.search(r"(\d+) states generated, (\d+) distinct states found", out)
         if m:
             res["generated"], res["distinct"] = int(m.group(1)), int(m.group(2))
@@ -117,17 +139,6 @@ class Ctx:
         m = re.search(r"depth of the complete state graph search is (\d+)", out)
         res["depth"] = int(m.group(1)) if m else 0
         res["violated"] = ("is violated" in out) or ("Error: Deadlock" in out) or ("violated" in out and "Error:" in out)
-        if emit_tags:
-            for line in out.splitlines():
-                if not line.startswith('<<"'):
-                    continue
-                mm = re.match(r'^<<"([A-Z0-9_]+)", "(.*)">>$', line)
-                if mm and mm.group(1) in res["emit"]:
-                    s = mm.group(2).replace('\\"', '"').replace("\\\\", "\\")
-                    try:
-                        res["emit"][mm.group(1)].append(json.loads(s))
-                    except Exception as e:
-                        raise Infra("cannot parse emitted line: %r (%s)" % (line[:200], e))
         ok_rc = (0,) if not expect_violation else (0, 10, 11, 12, 13)
         if p.returncode not in ok_rc and not res["violated"]:
             tail = "\n".join(out.splitlines()[-40:])
@@ -186,7 +197,7 @@ class Ctx:
         inp = tempfile.mktemp(prefix="in-%s-" % sub, suffix=".json", dir=self.scratch)
         outp = tempfile.mktemp(prefix="out-%s-" % sub, suffix=".json", dir=self.scratch)
         with open(inp, "w") as f:
-            json.dump(payload, f)
+            dump_payload(payload, f)
         env = goenv()
         env["VERIF_SEED"] = str(self.seed)
         env["VERIF_TIER"] = self.tier
@@ -264,6 +275,36 @@ def load_findings():
     if not os.path.exists(p):
         return []
     return json.load(open(p))["findings"]
+
+
+class RawJSON(str):
+    """A JSON text that is passed on as it is (never parsed on the Python side)."""
+
+
+def dump_payload(payload, f):
+    """json.dump that writes RawJSON values (also inside top-level lists) verbatim."""
+    if not isinstance(payload, dict) or not any(isinstance(v, list) and v and isinstance(v[0], RawJSON) for v in payload.values()):
+        json.dump(payload, f)
+        return
+    f.write("{")
+    first = True
+    for k, v in payload.items():
+        if not first:
+            f.write(",")
+        first = False
+        f.write(json.dumps(k) + ":")
+        if isinstance(v, list) and v and isinstance(v[0], RawJSON):
+            f.write("[")
+            for i, x in enumerate(v):
+                if i:
+                    f.write(",")
+                f.write(x)
+            f.write("]")
+        elif isinstance(v, RawJSON):
+            f.write(v)
+        else:
+            f.write(json.dumps(v))
+    f.write("}")
 
 
 def finish(ctx, level="model_checking", rule="", extra_cov=None):
